@@ -124,6 +124,15 @@ CMR_ERROR _CMRreallocBlockArray(CMR* cmr, void** ptr, size_t size, size_t length
 
   assert(cmr);
   assert(ptr);
+
+  /* realloc with size 0 may free the memory and return NULL, which is not an allocation failure. */
+  if (size * length == 0)
+  {
+    free(*ptr);
+    *ptr = NULL;
+    return CMR_OKAY;
+  }
+
   *ptr = realloc(*ptr, size * length);
 
   return *ptr ? CMR_OKAY : CMR_ERROR_MEMORY;
